@@ -252,10 +252,23 @@ def big_offsets(chk, w2c2):
     # the same region reached with a dynamic address and a small offset, to cross-check where the bytes are
     m.add_func([I32], [I64], [], [('local.get', 0), ('i64.load', 0, 8)], export='peek64')
     m.add_func([], [I32], [], [('memory.size',)], export='size')
+    # active data segments whose offsets lie at / across / above 2^31 (the i32.const immediate is then a negative signed number), and bulk
+    # operations with destinations and sources up there
+    m.datas.append(dict(mode='active', offset=[('i32.const', wasm.to_signed(0x80000210, 32))], bytes=b'segment-above-2G'))
+    m.datas.append(dict(mode='active', offset=[('i32.const', 0x7ffffffa)], bytes=b'straddles-2G'))
+    m.datas.append(dict(mode='active', offset=[('i32.const', wasm.to_signed(0x8000fd00, 32))], bytes=bytes(range(200, 232)), flag=2))
+    m.datas.append(dict(mode='passive', bytes=b'passive-segment-bytes'))
+    m.add_func([I32, I32, I32], [], [], [('local.get', 0), ('local.get', 1), ('local.get', 2), ('memory.init', 3)], export='init3')
+    m.add_func([I32, I32, I32], [], [], [('local.get', 0), ('local.get', 1), ('local.get', 2), ('memory.fill',)], export='fill')
+    m.add_func([I32, I32, I32], [], [], [('local.get', 0), ('local.get', 1), ('local.get', 2), ('memory.copy',)], export='copy')
     b = m.encode()
     plan = e2e.Plan(m)
     rnd = env.rng('c05-big')
-    lines = ['I 0', 'c 0 %d' % plan.fk('size')]
+    lines = ['I 0', 'c 0 %d' % plan.fk('size'), 'w 0 0 %d 1024' % 0x7ffffc00, 'w 0 0 %d 1024' % 0x80000000, 'w 0 0 %d 1024' % 0x8000fc00,
+             'c 0 %d 0x80000300 0x3 0x10' % plan.fk('init3'), 'c 0 %d 0x7ffffff0 0x0 0x15' % plan.fk('init3'),
+             'c 0 %d 0x80000340 0xab 0x21' % plan.fk('fill'), 'c 0 %d 0x7fffffe0 0xcd 0x30' % plan.fk('fill'),
+             'c 0 %d 0x80000380 0x80000210 0x10' % plan.fk('copy'), 'c 0 %d 0x100 0x80000210 0x10' % plan.fk('copy'), 'c 0 %d 0x8000fe00 0x7ffffffa 0x20' % plan.fk('copy'),
+             'w 0 0 %d 1024' % 0x7ffffc00]
     for nm, kind, w, off in names:
         if kind == 'store':
             for a in (0, 7, 0x100):
